@@ -1169,6 +1169,10 @@ func normAtom(c *Expr) (*Expr, bool) {
 // unslice rewrites x[c:][i] as x[i+c] (c constant, no upper bound): an
 // element of a tail is the element of the whole at the shifted position.
 func unslice(a, i *Expr) (*Expr, *Expr) {
+	// array[:][i] = array[i]
+	if a != nil && a.Op == OpSlice && len(a.Args) == 4 && a.Args[1] == nil && a.Args[2] == nil && a.Args[3] == nil && isArrayPtr(a.Args[0]) {
+		return a.Args[0], i
+	}
 	if a != nil && a.Op == OpSlice && len(a.Args) == 4 && a.Args[1] != nil && a.Args[2] == nil && a.Args[3] == nil {
 		if _, isC := a.Args[1].intConst(); isC {
 			return a.Args[0], foldBin(token.ADD, i, a.Args[1], i.Type, i.Pos)
@@ -1625,6 +1629,11 @@ func (x *SPE) call(st *pathState, in ssa.Instruction, c *ssa.CallCommon, kind st
 							e = sl.Args[2]
 						} else {
 							e = foldBin(token.SUB, sl.Args[2], sl.Args[1], t, in.Pos())
+						}
+					} else if sl := args[0]; sl.Op == OpSlice && len(sl.Args) == 4 && sl.Args[1] == nil && sl.Args[2] == nil && sl.Args[3] == nil && isArrayPtr(sl.Args[0]) {
+						// len(array[:]) = the array's length
+						if at, ok := sl.Args[0].Type.Underlying().(*types.Pointer).Elem().Underlying().(*types.Array); ok {
+							e = mkConstInt(at.Len(), t)
 						}
 					} else if sl := args[0]; sl.Op == OpSlice && len(sl.Args) == 4 && sl.Args[1] != nil && sl.Args[2] == nil && sl.Args[3] == nil {
 						// len(x[c:]) = len(x) - c
